@@ -29,6 +29,8 @@ type Script struct {
 	Incs       []Inc  `json:"incarnations"`
 	MaxRetries int    `json:"max_retries"`
 	FinalDown  int    `json:"final_down"`
+	Realtime   bool   `json:"realtime,omitempty"`   // no synctest bubble: wall-clock tickers and time-outs
+	DropFirst  int    `json:"drop_first,omitempty"` // the server silently ignores this many requests (real time only)
 }
 
 func (s *Script) String() string {
@@ -59,6 +61,7 @@ type incResult struct {
 	ExitCode    int
 	KillReached bool
 	Scripted    bool // ended by the script's own crash step
+	Runaway     bool // the child gave up after maxTransmissionsPerIncarnation transmissions
 	Stderr      string
 	TimedOut    bool
 	DirAfter    map[string]string
@@ -140,7 +143,7 @@ func (w *worker) runChild(sc *Script, dir string, inc Inc, killPoint string, kil
 	spath := filepath.Join(w.tmp, fmt.Sprintf("spec-%d.json", w.nrun))
 	os.Remove(jpath)
 	spec := ChildSpec{Dir: dir, Journal: jpath, AcctPort: w.srv.port, Secret: secret, NASID: nasID, MaxRetries: sc.MaxRetries,
-		Sessions: sc.Sessions, Inc: inc, KillPoint: killPoint, KillOcc: killOcc, Realtime: os.Getenv("C08_REALTIME") != ""}
+		Sessions: sc.Sessions, Inc: inc, KillPoint: killPoint, KillOcc: killOcc, Realtime: sc.Realtime || os.Getenv("C08_REALTIME") != ""}
 	b, _ := json.Marshal(spec)
 	os.WriteFile(spath, b, 0o644)
 
@@ -182,6 +185,8 @@ func (w *worker) runChild(sc *Script, dir string, inc Inc, killPoint string, kil
 			res.KillReached = true
 		case "scripted-crash":
 			res.Scripted = true
+		case "runaway":
+			res.Runaway = true
 		}
 	}
 	res.DirAfter = readTree(dir)
@@ -199,6 +204,8 @@ func (r *incResult) okEnd(killWanted bool) (bool, string) {
 	switch {
 	case r.TimedOut:
 		return false, "child watchdog (120 s real time) fired"
+	case r.Runaway && r.ExitCode == 7 && !killWanted:
+		return true, "" // judged on what the server saw; reported by judge()
 	case killWanted:
 		if r.Sig == "killed" && r.KillReached {
 			return true, ""
@@ -253,6 +260,7 @@ func (w *worker) runReference(sc *Script) *reference {
 	os.MkdirAll(dir, 0o755)
 	ref := &reference{sc: sc, ok: true}
 	w.srv.reset(nil, 0)
+	w.srv.setDrop(sc.DropFirst)
 	for k, inc := range sc.Incs {
 		w.srv.setInc(k)
 		res := w.runChild(sc, dir, inc, "", -1)
@@ -317,7 +325,24 @@ func (w *worker) runKill(kc killCase) {
 	}
 	dirAtKill := res.DirAfter
 	w.srv.setInc(kc.k + 1)
-	q := quiesceInc(sc.FinalDown)
+	// the recovery incarnation starts into an outage of FinalDown refusals, as far as the
+	// scenario's refusal budget (MaxRetries-2 in total) has not been used up already
+	refused := 0
+	for _, in := range append(append([]incResult(nil), kc.ref.incs[:kc.k]...), res) {
+		for _, e := range in.J {
+			if e.Ev == "req" && e.Down {
+				refused++
+			}
+		}
+	}
+	fd := sc.FinalDown
+	if left := sc.MaxRetries - 2 - refused; fd > left {
+		fd = left
+	}
+	if fd < 0 {
+		fd = 0
+	}
+	q := quiesceInc(fd)
 	qres := w.runChild(sc, dir, q, "", -1)
 	if ok, why := qres.okEnd(false); !ok {
 		run.Inconclusive(caseName+" (recovery incarnation)", why)
